@@ -3307,13 +3307,14 @@ Qed.
 Lemma append_loop_spec fuel s0 : forall rl xss,
   Forall2 (fun l xs => val_ok s0 l /\ achain (abs s0) (absv s0 l) xs (AImm VNil) /\
                        (length xs + 2 < fuel)%nat) rl xss ->
-  forall sk tl locs cars lastp,
+  forall rl2 sk tl locs cars lastp,
   values_are_refs s0 -> pres s0 sk -> values_are_refs sk ->
-  stack_top (stack sk) (sp sk) rl -> target_ok sk tl ->
+  stack_top (stack sk) (sp sk) (rl ++ rl2) -> target_ok sk tl ->
   cchain (hp sk) tl locs cars lastp ->
   Forall (fun p => ~ live (hp s0) p /\ live (hp sk) p) locs -> Forall (target_ok s0) cars ->
   exists r s' locs' cars',
-    append_loop fuel (length rl) (VPtr tl) sk = ROk (VPtr r) s' /\
+    append_loop fuel (length (rl ++ rl2)) (VPtr tl) sk = append_loop fuel (length rl2) (VPtr r) s' /\
+    stack_top (stack s') (sp s') rl2 /\
     pres s0 s' /\ values_are_refs s' /\ target_ok s' r /\
     cchain (hp s') r (locs' ++ locs) (cars' ++ cars) lastp /\
     Forall (fun p => ~ live (hp s0) p /\ live (hp s') p) (locs' ++ locs) /\
@@ -3321,24 +3322,24 @@ Lemma append_loop_spec fuel s0 : forall rl xss,
     map (fun c => absv s0 (VPtr c)) cars' = concat (rev xss).
 Proof.
   intros rl xss HF. induction HF as [|l xs rl xss (Hvl & Hch & Hfuel) HF IH];
-    intros sk tl locs cars lastp W0 P0 Wk Hst Ttl Hacc Hfresh Hcars.
-  - exists tl, sk, [], []. cbn [length append_loop app map rev concat].
-    refine (conj eq_refl (conj P0 (conj Wk (conj Ttl (conj Hacc (conj Hfresh (conj _ eq_refl))))))). constructor.
-  - cbn [length append_loop].
+    intros rl2 sk tl locs cars lastp W0 P0 Wk Hst Ttl Hacc Hfresh Hcars.
+  - exists tl, sk, [], []. cbn [app map rev concat]. cbn [app] in Hst.
+    refine (conj eq_refl (conj Hst (conj P0 (conj Wk (conj Ttl (conj Hacc (conj Hfresh (conj _ eq_refl)))))))). constructor.
+  - cbn [app length append_loop]. cbn [app] in Hst.
     set (sk1 := with_sp sk (sp sk - 1)).
     pose proof (stack_top_tail _ _ _ _ Hst) as Hst1.
     destruct (achain_pchain s0 W0 _ _ _ Hch l Hvl eq_refl) as (cells & e' & Hpc & Hm & He & Hve).
     destruct (pchain_end_deref _ _ _ _ Hpc) as (ce & Hce & Hpe).
     assert (Ece : ce = VNil) by (apply (nil_deref s0 e' ce Hve Hce); exact He). subst ce.
     assert (Hpop : pop_value sk = lift (heap_deref (hp s0) l) sk1).
-    { rewrite (pop_value_top sk l rl Hst). fold sk1. f_equal. apply (pres_deref s0 sk l P0 Hvl). }
+    { rewrite (pop_value_top sk l (rl ++ rl2) Hst). fold sk1. f_equal. apply (pres_deref s0 sk l P0 Hvl). }
     unfold bindM at 1. rewrite Hpop.
     inversion Hpc as [v0 c0 Hd0 Hp0 | v0 a d cells0 e0 Hd0 Hc0]; subst.
     + (* the empty list: skipped *)
       rewrite Hd0 in Hce. injection Hce as ->. rewrite Hd0. unfold lift.
-      destruct (IH sk1 tl locs cars lastp W0 P0 Wk Hst1 Ttl Hacc Hfresh Hcars)
-        as (r & s' & locs' & cars' & E & R1 & R2 & R3 & R4 & R5 & R6 & R7).
-      exists r, s', locs', cars'. refine (conj E (conj R1 (conj R2 (conj R3 (conj R4 (conj R5 (conj R6 _))))))).
+      destruct (IH rl2 sk1 tl locs cars lastp W0 P0 Wk Hst1 Ttl Hacc Hfresh Hcars)
+        as (r & s' & locs' & cars' & E & R0 & R1 & R2 & R3 & R4 & R5 & R6 & R7).
+      exists r, s', locs', cars'. refine (conj E (conj R0 (conj R1 (conj R2 (conj R3 (conj R4 (conj R5 (conj R6 _)))))))).
       cbn [map rev]. rewrite concat_app. cbn [concat]. rewrite !app_nil_r. exact R7.
     + (* a pair: copied, linked in front of the accumulated list *)
       rewrite Hd0. unfold lift.
@@ -3393,12 +3394,12 @@ Proof.
       { apply Forall_app. split; [|exact Hcars]. rewrite Hcs. constructor; [exact Ta0|].
         apply Forall_forall. intros q Hq. apply in_map_iff in Hq. destruct Hq as (ad & <- & Hin).
         rewrite Forall_forall in Hcells. exact (proj1 (Hcells ad Hin)). }
-      assert (Hst3 : stack_top (stack s3) (sp s3) rl).
+      assert (Hst3 : stack_top (stack s3) (sp s3) (rl ++ rl2)).
       { destruct Hreg as (_ & R2 & R3). cbn [s3 with_heap stack sp]. rewrite R2, R3. exact Hst1. }
-      destruct (IH s3 h ((ps ++ [t]) ++ locs) ((cs ++ [c]) ++ cars) lastp W0 P03 W3 Hst3 Th3 Hall Hfresh3 Hcars3)
-        as (r & s' & locs' & cars' & E & R1 & R2 & R3 & R4 & R5 & R6 & R7).
+      destruct (IH rl2 s3 h ((ps ++ [t]) ++ locs) ((cs ++ [c]) ++ cars) lastp W0 P03 W3 Hst3 Th3 Hall Hfresh3 Hcars3)
+        as (r & s' & locs' & cars' & E & R0 & R1 & R2 & R3 & R4 & R5 & R6 & R7).
       exists r, s', (locs' ++ (ps ++ [t])), (cars' ++ (cs ++ [c])).
-      refine (conj _ (conj R1 (conj R2 (conj R3 (conj _ (conj _ (conj _ _))))))).
+      refine (conj _ (conj R0 (conj R1 (conj R2 (conj R3 (conj _ (conj _ (conj _ _)))))))).
       * rewrite (bind_ok _ _ _ _ _ Ecl).
         rewrite (bind_ok _ _ _ _ _ (hderef_ok s2 (VPtr t) _ Hgt2)).
         cbn [as_car as_ptr bindM ret]. rewrite (bind_ok _ _ _ _ _ (hset_ok s2 _ _ _ Hs)). exact E.
@@ -3443,9 +3444,11 @@ Proof.
     refine (conj (pres_val_ok s s3 l P3 ltac:(assumption)) (conj _ Hf)).
     rewrite (pres_absv s s3 l P3) by assumption. eapply achain_pres; eauto. }
   assert (Hst : stack_top (stack s3) (sp s3) (rev lists)) by (rewrite Hst3, Hsp3; exact H2).
-  destruct (append_loop_spec fuel s3 (rev lists) (rev xss) HF3 s3 lastp [] [] lastp W3 (pres_refl s3) W3 Hst T3
+  assert (Hst' : stack_top (stack s3) (sp s3) (rev lists ++ [])) by (rewrite app_nil_r; exact Hst).
+  destruct (append_loop_spec fuel s3 (rev lists) (rev xss) HF3 [] s3 lastp [] [] lastp W3 (pres_refl s3) W3 Hst' T3
               (cc_nil _ _) (Forall_nil _) (Forall_nil _))
-    as (r & s' & locs & cars & E & R1 & R2 & R3 & R4 & R5 & R6 & R7).
+    as (r & s' & locs & cars & E & _ & R1 & R2 & R3 & R4 & R5 & R6 & R7).
+  rewrite app_nil_r in E. cbn [length append_loop] in E. unfold ret in E.
   rewrite !app_nil_r in R4. rewrite !app_nil_r in R5. rewrite rev_involutive in R7.
   assert (P : pres s s') by (eapply pres_trans; [exact P3 | exact R1]).
   exists (VPtr r), s', locs. refine (conj _ (conj _ (conj _ (conj P (conj R2 R3))))).
@@ -3895,4 +3898,81 @@ Proof.
   assert (Hnext : forall i, heap_deref (hp s) (VPtr (snd (c i))) = Ok (VPair (fst (c (S i))) (snd (c (S i))))).
   { intros i. unfold c. rewrite Nat.even_succ, <- Nat.negb_even. destruct (Nat.even i); cbn; assumption. }
   destruct (is_list_circular fuel s (VPtr p) c 2%nat T H Hp Hnext ltac:(lia) eq_refl Hf) as (s' & E & _). eauto.
+Qed.
+
+(* append: an improper list among the copied arguments is an error.  [bad] is the LAST
+   improper argument (everything after it is a proper list); the arguments before it are
+   never examined. *)
+Theorem append_improper fuel s before bad after last xss xsb e :
+  values_are_refs s -> Forall (val_ok s) (before ++ bad :: after) -> val_ok s last ->
+  called_with s ((before ++ bad :: after) ++ [last]) ->
+  Forall2 (fun l xs => achain (abs s) (absv s l) xs (AImm VNil) /\ (length xs + 2 < fuel)%nat) after xss ->
+  achain (abs s) (absv s bad) xsb e -> e <> AImm VNil -> (length xsb + 2 < fuel)%nat ->
+  render_fail (call_builtin (append fuel) s).
+Proof.
+  intros W Hall Hlast H HF Hbad Hne Hfb. unfold called_with in H.
+  rewrite rev_app_distr in H. cbn [rev app] in H.
+  set (lists := before ++ bad :: after) in *.
+  assert (Hrev : rev lists = rev after ++ (bad :: rev before)).
+  { unfold lists. rewrite rev_app_distr. cbn [rev]. rewrite <- app_assoc. reflexivity. }
+  set (s1 := with_sp s (sp s - 1)).
+  set (s2 := with_sp s1 (sp s1 - 1)).
+  pose proof (stack_top_tail _ _ _ _ H) as H1.
+  pose proof (stack_top_tail _ _ _ _ H1) as H2.
+  destruct (hput_val s2 last W Hlast) as (lastp & s3 & E3 & P3 & W3 & T3 & A3 & Hst3 & Hsp3 & Hx3).
+  assert (Hlen : len (lists ++ [last]) = N.of_nat (length lists) + 1).
+  { unfold len. rewrite app_length. cbn [length]. lia. }
+  assert (Hafter : Forall (val_ok s) after /\ val_ok s bad).
+  { unfold lists in Hall. apply Forall_app in Hall. destruct Hall as (_ & Hb). inversion Hb; subst. auto. }
+  destruct Hafter as (Hafter & Hvb).
+  assert (HF3 : Forall2 (fun l xs => val_ok s3 l /\ achain (abs s3) (absv s3 l) xs (AImm VNil) /\
+                                    (length xs + 2 < fuel)%nat) (rev after) (rev xss)).
+  { apply Forall2_rev. clear - HF Hafter W P3.
+    induction HF as [|l xs ls xss (Hc & Hf) HF IH]; [constructor|].
+    inversion Hafter; subst. constructor; [|now apply IH].
+    refine (conj (pres_val_ok s s3 l P3 ltac:(assumption)) (conj _ Hf)).
+    rewrite (pres_absv s s3 l P3) by assumption. eapply achain_pres; eauto. }
+  assert (Hst : stack_top (stack s3) (sp s3) (rev after ++ bad :: rev before)).
+  { rewrite Hst3, Hsp3, <- Hrev. exact H2. }
+  destruct (append_loop_spec fuel s3 (rev after) (rev xss) HF3 (bad :: rev before) s3 lastp [] [] lastp W3
+              (pres_refl s3) W3 Hst T3 (cc_nil _ _) (Forall_nil _) (Forall_nil _))
+    as (r & s' & locs & cars & E & Hst' & R1 & R2 & _).
+  assert (P : pres s s') by (eapply pres_trans; [exact P3 | exact R1]).
+  (* the step that meets the improper list *)
+  assert (Hfail : render_fail (append_loop fuel (length (bad :: rev before)) (VPtr r) s')).
+  { cbn [length append_loop].
+    set (sk1 := with_sp s' (sp s' - 1)).
+    destruct (achain_pchain s W _ _ _ Hbad bad Hvb eq_refl) as (cells & e' & Hpc & Hm & He & Hve).
+    destruct (pchain_end_deref _ _ _ _ Hpc) as (ce & Hce & Hpe).
+    assert (Hcn : ce <> VNil).
+    { intros ->. apply Hne. rewrite <- He. apply (nil_deref s e' VNil Hve Hce). reflexivity. }
+    unfold bindM at 1. rewrite (pop_value_top s' bad _ Hst'). fold sk1.
+    rewrite (pres_deref s s' bad P Hvb).
+    inversion Hpc as [v0 c0 Hd0 Hp0 | v0 a d cells0 e0 Hd0 Hc0]; subst.
+    - rewrite Hd0 in Hce. injection Hce as ->. rewrite Hd0. unfold lift.
+      destruct ce; try contradiction; try discriminate Hp0; apply fail_cell_render_fail.
+    - rewrite Hd0. unfold lift.
+      pose proof W as (_ & Hpairs & _).
+      assert (Hg0 : exists pl, heap_get (hp s) pl = Ok (VPair a d)).
+      { destruct bad; cbn [val_ok] in Hvb; try contradiction; cbn [heap_deref] in Hd0; try discriminate. eauto. }
+      destruct Hg0 as (pl & Hg0). destruct (Hpairs _ _ _ Hg0) as (Ta0 & Td0).
+      assert (Hpck : pchain (hp sk1) (VPtr d) cells0 e') by exact (pchain_pres s s' (VPtr d) cells0 e' W P Td0 Hc0).
+      assert (Hcek : heap_deref (hp sk1) e' = Ok ce) by (change (hp sk1) with (hp s'); rewrite (pres_deref s s' e' P Hve); exact Hce).
+      cbn [map length] in Hfb. rewrite map_length in Hfb.
+      pose proof (clone_list_spec fuel sk1 a d cells0 e' R2 Hpck (pres_target_ok _ _ _ P Ta0) (pres_target_ok _ _ _ P Td0)
+                    ltac:(lia) ce Hcek) as R.
+      assert (En : is_nil ce = false) by (destruct ce; try reflexivity; contradiction).
+      rewrite En in R. apply render_fail_bind. exact R. }
+  unfold call_builtin. apply render_fail_bind.
+  unfold append.
+  assert (Hp : pop_argc 0 None s = ROk (len (lists ++ [last])) s1).
+  { rewrite (pop_argc_top _ _ _ _ _ H). rewrite (proj2 (N.ltb_ge _ 0) (N.le_0_l _)). reflexivity. }
+  rewrite (bind_ok _ _ _ _ _ Hp). rewrite Hlen.
+  assert (E0 : (N.of_nat (length lists) + 1 =? 0) = false) by (apply N.eqb_neq; lia). rewrite E0.
+  rewrite (bind_ok _ _ _ _ _ (pop_raw_top s1 last _ H1)). fold s2.
+  rewrite (bind_ok _ _ _ _ _ E3).
+  rewrite (bind_ok _ _ _ _ _ (usub_ok (N.of_nat (length lists) + 1) 1 s3 ltac:(lia))).
+  replace (N.to_nat (N.of_nat (length lists) + 1 - 1)) with (length (rev after ++ bad :: rev before))
+    by (rewrite <- Hrev, rev_length; lia).
+  rewrite E. exact Hfail.
 Qed.
